@@ -9,6 +9,7 @@ import MambaVerif.Model.Range
 import MambaVerif.Props.C02
 import MambaVerif.Model.Imports
 import MambaVerif.Model.ClassOrder
+import MambaVerif.Model.Pipeline
 
 open MV
 
@@ -51,6 +52,25 @@ def handle (mode : String) (payload : String) : String :=
         hexOfBytes (renderToks ts).toUTF8 ++ "\t" ++ parsed
       | none => "bad core"
     | none => "bad sexp"
+  | "proj" =>
+    -- payload: `<pre paths comma separated or -> <file>*` with file = `rel:label` (label g|p|t|x = good, parse, type, gen error)
+    match (payload.splitOn " ").filter (· != "") with
+    | pre :: fs =>
+      let prior : FS := if pre == "-" then [] else (pre.splitOn ",").map fun p => (p, "old")
+      let files := fs.filterMap fun t =>
+        match t.splitOn ":" with
+        | [rel, l] =>
+          let o := if l == "g" then Outcome.good ("py:" ++ rel) else if l == "p" then .parseErr "e"
+            else if l == "t" then .typeErr ["e"] else .genErr "e"
+          some (⟨rel, o⟩ : PFile)
+        | _ => none
+      let (res, out) := transpileDir prior files []
+      let paths := (out.map Prod.fst).eraseDups.mergeSort (fun a b => a ≤ b)
+      let verdict := match res with
+        | .ok _ => "ok"
+        | .error es => "err " ++ ",".intercalate ((es.map Prod.fst).eraseDups)
+      verdict ++ " | " ++ ",".intercalate paths
+    | [] => "bad payload"
   | "classorder" =>
     -- payload: `<newinit 0|1> kind:name ...` (kind v|f|i|o, in body order) -> emitted member names
     match (payload.splitOn " ").filter (· != "") with
